@@ -10,6 +10,7 @@ import (
 	"sort"
 	"crypto"
 	"crypto/sha256"
+	"encoding/binary"
 	"encoding/hex"
 	"fmt"
 	"io"
@@ -63,6 +64,19 @@ func roImage(variant string) *roObject {
 		file = attachSignatures(ti, mk("k1", "A"))
 	case "twosigs":
 		file = attachSignatures(ti, mk("k2", "B"), mk("k1", "A"))
+	case "unaligned":
+		// a signed image whose certificate table ends right behind its last entry, without the padding to 8 (the table size says so)
+		file = attachSignatures(ti, mk("k1", "A"))
+		va := int(binary.LittleEndian.Uint32(file[ti.img.dd4:]))
+		dw := int(binary.LittleEndian.Uint32(file[va:]))
+		if dw%8 == 0 {
+			// make the entry length odd: one more byte of (ignored) trailing data inside the entry
+			file = append(file[:va+dw], 0)
+			dw++
+			binary.LittleEndian.PutUint32(file[va:], uint32(dw))
+		}
+		file = file[:va+dw]
+		binary.LittleEndian.PutUint32(file[ti.img.dd4+4:], uint32(dw))
 	case "badsigs":
 		// three entries none of which verifies, each for another reason: not a signature at all, a signature over another image's
 		// digest, a signature by somebody else - what Verify reports is the same every time it is asked
